@@ -193,6 +193,40 @@ class JitLab(object):
         return json.loads(line.decode())
 
 
+_shared = [None, None]
+
+
+def shared_lab(time_limit=600):
+    """One JitLab per process for replay / shrink calls (the runner replays regress files one by one in the main
+    process); closed at interpreter exit."""
+    import atexit
+    if _shared[0] is None or _shared[1] != os.getpid():
+        lab = JitLab(time_limit=time_limit)
+        _shared[0], _shared[1] = lab, os.getpid()
+        atexit.register(_close_shared, os.getpid())
+    return _shared[0]
+
+
+def _close_shared(pid):
+    if _shared[0] is not None and _shared[1] == pid == os.getpid():
+        _shared[0].close()
+        _shared[0] = None
+
+
+class _SharedCtx(object):
+    """`with jitlab.shared():` yields the per-process shared lab and does not close it."""
+
+    def __enter__(self):
+        return shared_lab()
+
+    def __exit__(self, *a):
+        return False
+
+
+def shared():
+    return _SharedCtx()
+
+
 # =================================================================================================
 # calling conventions: build the register / stack part of a scenario that calls f(a, b, c, arr)
 
